@@ -398,3 +398,51 @@ def observe_text():
                 raise Unsupported("TextWriter(format_spec=%r) writes %r, expected the template applied to the fields: %r" % (
                     tpl, (got or "")[:120], (want or "")[:120]))
     return dict(repl=table, se=se, end=end, missing=(mo, mc))
+
+
+# ------------------------------------------------------------------------------------------------
+# CsvfileReader: a file whose first row consists of field names is read in the writer's dialect
+
+READER_PROBES = [
+    # (text in the writer's dialect, note) -- every one of these misleads csv.Sniffer
+    ('s,u\r\nz,"a,b"\r\n', "quoted cell holding the delimiter in the last column, CRLF"),
+    ('_source,s\r\nsrc,plain\r\nsrc,"a,b"\r\n', "reserved field first"),
+    ("s,u,n\r\nplain,'q',1\r\n", "single quotes in a value"),
+    ('s,u\r\nx, lead\r\ny,"a, b"\r\n', "space after the delimiter"),
+    ('s,u\r\nplain,"q""q"\r\nz,"a,b"\r\n', "doubled quotes"),
+    ('s,u\nz,"a ""q"" b"\n', "quotes and spaces, LF"),
+    ("s\r\nx y\r\n", "one column"),
+    ('my-col,col (x),9lives\r\n1,"2;3",4|5\r\n', "names that need normalising, other candidate delimiters in cells"),
+    ('a,b\r\n"l\nf",";;;;"\r\n\t,:\r\n', "line feed inside a cell; TAB, colon"),
+]
+
+
+def observe_reader():
+    from flow.record.adapter.csvfile import CsvfileReader
+    from flow.record.base import normalize_fieldname
+    os.makedirs("/verif/.work", exist_ok=True)
+    tmp = tempfile.mkdtemp(prefix="C20.facts.", dir="/verif/.work")
+    try:
+        with warnings.catch_warnings():
+            warnings.simplefilter("ignore")
+            for text, note in READER_PROBES:
+                path = os.path.join(tmp, "probe_r.csv")
+                with open(path, "w", newline="", encoding="utf-8") as f:
+                    f.write(text)
+                rows = [list(r) for r in csv.reader(io.StringIO(text, newline=""))]
+                keep = [j for j, h in enumerate(rows[0]) if not normalize_fieldname(h).startswith("_")]
+                want = [[r[j] for j in keep] for r in rows[1:]]
+                try:
+                    rd = CsvfileReader(path)
+                    try:
+                        got = [[getattr(r, k) for k in r._desc.fields] for r in rd]
+                    finally:
+                        rd.close()
+                except Exception as e:  # noqa
+                    got = "%s: %s" % (type(e).__name__, e)
+                if got != want:
+                    raise Unsupported("CsvfileReader does not read a file whose first row consists of field names in the "
+                                      "writer's dialect (%s): %r is read as %r, expected %r" % (note, text, got, want))
+        return dict(excel_on_names=True)
+    finally:
+        shutil.rmtree(tmp, ignore_errors=True)
